@@ -27,7 +27,11 @@ import (
 
 // expensiveBudget: a case stops executing inputs after this many expensive violations (each costs a
 // child process or seconds of page zeroing); the rest of its inputs is counted as not executed
-const expensiveBudget = 2
+const expensiveBudget = 3
+
+// enumerative classes: after an expensive violation only the inputs that touch the same bytes are skipped;
+// the case as a whole stops after this many
+const expensiveBudgetEnum = 5
 
 const rlimitData = 2 // RLIMIT_DATA on linux
 
@@ -57,13 +61,15 @@ type childSpec struct {
 	ResumeCase int        `json:"resume_case"`
 	ResumeIdx  int        `json:"resume_idx"`
 	// expensive violations (child crash, CPU hang, allocation out of proportion) already seen in the resume case
-	ResumeExpensive int    `json:"resume_expensive"`
-	MemKB           uint64 `json:"mem_kb"`
-	Progress        string `json:"progress"`
-	Result          string `json:"result"`
-	BlobDir         string `json:"blob_dir"`
-	Seed            int64  `json:"seed"`
-	Thorough        bool   `json:"thorough"`
+	ResumeExpensive int `json:"resume_expensive"`
+	// indices of those inputs (enumerative classes skip only the neighbourhood of an expensive input)
+	ResumeExpensiveIdx []int  `json:"resume_expensive_idx"`
+	MemKB              uint64 `json:"mem_kb"`
+	Progress           string `json:"progress"`
+	Result             string `json:"result"`
+	BlobDir            string `json:"blob_dir"`
+	Seed               int64  `json:"seed"`
+	Thorough           bool   `json:"thorough"`
 }
 
 // records written by the child
@@ -476,6 +482,20 @@ func childMain(specPath string) {
 		os.Exit(4)
 	}
 	if spec.MemKB > 0 {
+		// every OS thread created later costs 8 MiB of the cap: let the runtime create its threads now
+		var wg, gate sync.WaitGroup
+		gate.Add(1)
+		for i := 0; i < 10; i++ {
+			wg.Add(1)
+			go func() {
+				runtime.LockOSThread()
+				wg.Done()
+				gate.Wait()
+				runtime.UnlockOSThread()
+			}()
+		}
+		wg.Wait()
+		gate.Done()
 		// memory cap: RLIMIT_DATA (private writable mappings: the Go heap, stacks, runtime metadata; address space
 		// that is only reserved does not count) = what the process has now + the allowance
 		cur := uint64(0)
